@@ -58,10 +58,16 @@ func (p *Core) pickHeight(lo, hi int64) int64 {
 
 func (p *Core) genSend() []sim.Op {
 	w := p.w
-	if len(p.Order) >= p.Opt.MaxPkts || len(p.Routes) == 0 {
+	var mock []int
+	for i, r := range p.Routes {
+		if !r.Xfer {
+			mock = append(mock, i)
+		}
+	}
+	if len(p.Order) >= p.Opt.MaxPkts || len(mock) == 0 {
 		return nil
 	}
-	ri := w.Intn(len(p.Routes))
+	ri := mock[w.Intn(len(mock))]
 	r := p.Routes[ri]
 	d := w.Intn(2)
 	dst := r.Chain[1-d]
@@ -232,7 +238,27 @@ func (p *Core) pickInflight() *PktState {
 func (p *Core) Gen(w *sim.World) []sim.Op {
 	o := p.Opt
 	for try := 0; try < 8; try++ {
-		switch w.Pick(o.WSend, o.WRelay, o.WBlock, o.WDup, o.WEarlyTmo, o.WClose, o.WMut, o.WRestart, o.WUpdate, o.WAsyncAck, 2, o.WLocalVerify, o.WDelayProbe) {
+		switch w.Pick(o.WSend, o.WRelay, o.WBlock, o.WDup, o.WEarlyTmo, o.WClose, o.WMut, o.WRestart, o.WUpdate, o.WAsyncAck, 2, o.WLocalVerify, o.WDelayProbe, o.WXfer, o.WDonate, o.WAttack, o.WRateAdm, o.WGrant) {
+		case 13:
+			if ops := p.genXfer(); ops != nil {
+				return ops
+			}
+		case 14:
+			if ops := p.genDonate(); ops != nil {
+				return ops
+			}
+		case 15:
+			if ops := p.genAttack(); ops != nil {
+				return ops
+			}
+		case 16:
+			if ops := p.genRateAdmin(); ops != nil {
+				return ops
+			}
+		case 17:
+			if ops := p.genGrant(); ops != nil {
+				return ops
+			}
 		case 11:
 			return p.genLocalVerify()
 		case 12:
